@@ -267,7 +267,8 @@ impl LuaEngine {
                     is_pcall
                 );
             }
-            "CONFIG" | "SHUTDOWN" | "DEBUG" | "ACL" => {
+            "CONFIG" | "SHUTDOWN" | "DEBUG" | "ACL" |
+            "SAVE" | "BGSAVE" | "BGREWRITEAOF" | "SYNC" | "PSYNC" | "REPLICAOF" | "SLAVEOF" => {
                 return Self::handle_command_error_with_context(
                     lua_ctx,
                     format!("'{}' administrative command is not allowed inside Lua scripts", cmd_name),
